@@ -1,7 +1,7 @@
 (* C08 — parse, validate, dump, save, merge, strip and instantiate never modify what they are given.
    Property theorems only; each is closed by `exact` of a lemma of Proofs/C08HeapProofs.v, or is a
    witness evaluated by the kernel. *)
-From JV Require Import Lib.Base Model.C08Heap Spec.C08FrameSpec Proofs.C08HeapProofs.
+From JV Require Import Lib.Base Model.C08Heap Model.C08Inst Spec.C08FrameSpec Proofs.C08HeapProofs Proofs.C08InstProofs.
 
 (* ---- the full statement, which is FALSE of the pinned tree (see the _refuted witnesses below):
      forall p h0 o g, firstn (length h0) (s_h (out_st (run_op p o (mkst h0 g)))) = h0            *)
@@ -49,7 +49,7 @@ Print Assumptions C08_region_without_finally_leaks.
 Theorem C08_defaults_untouched :
   forall (p : parser) (h0 : heap) (g : globals),
     guard p h0 OGetDefaults = true ->
-    match get_defaults p (mkst h0 g) with
+    match get_defaults false p (mkst h0 g) with
     | Ok r s' => refs_ge (length h0) r = true /\ firstn (length h0) (s_h s') = h0
     | Err _ s' => firstn (length h0) (s_h s') = h0
     end.
@@ -98,7 +98,7 @@ Print Assumptions C08_parse_object_failure_mutates_refuted.
 
 (* get_defaults with the default ([1],) for Tuple[List[int]] hands out the parser's own list *)
 Theorem C08_get_defaults_shares_refuted :
-  exists p h0, match get_defaults p (mkst h0 g0) with
+  exists p h0, match get_defaults false p (mkst h0 g0) with
                | Ok r s' => has_old (view FUEL (length h0) (s_h s') r) = true
                | Err _ _ => False
                end.
@@ -107,6 +107,98 @@ Proof.
   vm_compute. reflexivity.
 Qed.
 Print Assumptions C08_get_defaults_shares_refuted.
+
+(* ---- the repaired tree (fixes/C08-container-below-tuple-shared.patch + fixes/C08-parse-object-adapts-in-place.patch):
+   `run_op_fixed` is the same model with recreate_branches rebuilding plain tuples and parse_object
+   working on recreate_branches(cfg_obj).  The statement holds WITHOUT any guard: every parser, every
+   heap (containers below tuples, sharing, cycles, Namespace arguments), every operation, every state
+   of the globals, success or failure. *)
+Theorem C08_fixed_frame :
+  forall (p : parser) (h0 : heap) (o : op) (g : globals),
+    firstn (length h0) (s_h (out_st (run_op_fixed p o (mkst h0 g)))) = h0.
+Proof. exact frame_fixed. Qed.
+Print Assumptions C08_fixed_frame.
+
+Theorem C08_fixed_frame_loc :
+  forall (p : parser) (h0 : heap) (o : op) (g : globals) (l : nat) (c : cell),
+    nth_error h0 l = Some c ->
+    nth_error (s_h (out_st (run_op_fixed p o (mkst h0 g)))) l = Some c.
+Proof. exact frame_fixed_loc. Qed.
+Print Assumptions C08_fixed_frame_loc.
+
+Theorem C08_fixed_brackets_restore :
+  forall (p : parser) (o : op) (s : st) (x : nat), s_g (out_st (run_op_fixed p o s)) x = s_g s x.
+Proof. exact brackets_restore_fixed. Qed.
+Print Assumptions C08_fixed_brackets_restore.
+
+Theorem C08_fixed_defaults_untouched :
+  forall (p : parser) (h0 : heap) (g : globals),
+    match get_defaults true p (mkst h0 g) with
+    | Ok r s' => refs_ge (length h0) r = true /\ firstn (length h0) (s_h s') = h0
+    | Err _ s' => firstn (length h0) (s_h s') = h0
+    end.
+Proof. exact defaults_untouched_fixed. Qed.
+Print Assumptions C08_fixed_defaults_untouched.
+
+(* the four witnesses above, run through the repaired model: nothing the caller owns changes, the
+   calls still succeed / fail as before, and get_defaults shares nothing *)
+Definition changed_fixed (p : parser) (h0 : heap) (o : op) : bool :=
+  negb (list_eqb oval_eqb (view_old (length h0) (s_h (out_st (run_op_fixed p o (mkst h0 g0))))) (snapshot0 h0)).
+Definition is_ok {A} (r : out A) : bool := match r with Ok _ _ => true | Err _ _ => false end.
+Example C08_fixed_witnesses_repaired :
+  changed_fixed po_parser po_heap (OParseObject (VRef 0)) = false
+  /\ is_ok (run_op_fixed po_parser (OParseObject (VRef 0)) (mkst po_heap g0)) = true
+  /\ changed_fixed dt_parser dt_heap (ODump (VRef 0) false) = false
+  /\ is_ok (run_op_fixed dt_parser (ODump (VRef 0) false) (mkst dt_heap g0)) = true
+  /\ changed_fixed [{| d_key := k_; d_ty := TList TInt; d_dflt := VNone |}]
+                   [CDict [(k_, VRef 1)]; CList [VStr s1; VStr [120]%N]] (OParseObject (VRef 0)) = false
+  /\ is_ok (run_op_fixed [{| d_key := k_; d_ty := TList TInt; d_dflt := VNone |}] (OParseObject (VRef 0))
+                         (mkst [CDict [(k_, VRef 1)]; CList [VStr s1; VStr [120]%N]] g0)) = false
+  /\ match get_defaults true [{| d_key := k_; d_ty := TTup1 (TList TInt); d_dflt := VTup [VRef 0] |}] (mkst [CList [VInt 1]] g0) with
+     | Ok r s' => has_old (view FUEL 1 (s_h s') r) = false
+     | Err _ _ => False
+     end.
+Proof. vm_compute. repeat split; reflexivity. Qed.
+
+(* ---- "Instantiating classes twice from one configuration builds, for every class given by a
+   class_path/init_args spec, two distinct fresh objects" (Model/C08Inst.v: a configuration is a tree of
+   scalars, lists and specs of any size and nesting; identity = the n-th object built by the process).
+   For every configuration and every starting state: each call builds one object per spec, the objects
+   of the two calls are pairwise distinct, and none of them existed before. *)
+Theorem C08_instantiate_twice_fresh :
+  forall (c : nat) (cfg : ivals),
+    let '(ids1, ids2) := inst_twice c cfg in
+    NoDup (ids1 ++ ids2) /\ (forall i, In i (ids1 ++ ids2) -> c <= i)
+    /\ length ids1 = count_list cfg /\ length ids2 = count_list cfg.
+Proof. exact instantiate_twice_fresh. Qed.
+Print Assumptions C08_instantiate_twice_fresh.
+
+Theorem C08_instantiate_twice_pairwise_distinct :
+  forall (c : nat) (cfg : ivals) (k : nat),
+    k < count_list cfg ->
+    nth k (fst (inst_twice c cfg)) 0 <> nth k (snd (inst_twice c cfg)) 0.
+Proof. exact instantiate_twice_pairwise_distinct. Qed.
+Print Assumptions C08_instantiate_twice_pairwise_distinct.
+
+(* the executable spec used by the correspondence judge accepts exactly this behaviour ... *)
+Theorem C08_instantiate_twice_spec :
+  forall (c : nat) (cfg : ivals),
+    fresh_twice_ok c cfg (fst (inst_twice c cfg)) (snd (inst_twice c cfg)) = true.
+Proof. exact instantiate_twice_spec. Qed.
+Print Assumptions C08_instantiate_twice_spec.
+
+(* ... and rejects an instantiate_classes that hands out the objects of the first call again *)
+Theorem C08_cached_instantiate_refuted :
+  exists c cfg, fresh_twice_ok c cfg (fst (inst_twice_cached c cfg)) (snd (inst_twice_cached c cfg)) = false.
+Proof. exact cached_instantiate_refuted. Qed.
+Print Assumptions C08_cached_instantiate_refuted.
+
+(* Node(child=Pair(left=Leaf(5))), [Leaf(1)] with two pre-existing objects: 4 + 4 objects, numbered 2..9 *)
+Example C08_instantiate_twice_example :
+  inst_twice 2 (ICons (ISpec [78]%N (ICons (ISpec [80]%N (ICons (ISpec [76]%N (ICons (IInt 5) INil)) INil)) (ICons (IInt 3) INil)))
+               (ICons (IList (ICons (ISpec [76]%N (ICons (IInt 1) INil)) INil)) INil))
+  = ([2; 3; 4; 5], [6; 7; 8; 9])%nat.
+Proof. vm_compute. reflexivity. Qed.
 
 (* ---- the guard is satisfiable by non-trivial inputs ------------------------------------------ *)
 (* dump / validate / instantiate of Namespace(k=[[1,2],[3]], t=(1,2)) with a list-of-lists default *)
